@@ -62,6 +62,8 @@ fn main() {
         "C17" => c17::run(&args),
         "probe" => probe::run(),
         "probe-det" => probe::det(),
+        "probe-chars" => probe::chars(),
+        "probe-times" => probe::times_only(),
         "C10" => c10::run(&args),
         "C11" => c11::run(&args),
         "C19" => c19::run(&args),
